@@ -671,6 +671,12 @@ class Program:
                                     return 0
                         return 1
                     call = lambda: df.copy().group_by(*cols).aggregate(n=di.count(), m=lambda d: d.nrow, ok=coherent)
+                    if rng.random() < 0.4:
+                        # the grouped frame is kept and aggregated directly (group_by marks its receiver, which is documented):
+                        # aggregate is then an ordinary non-modifying call on it -- its grouping included
+                        df.group_by(*cols)
+                        call = lambda: df.aggregate(n=di.count(), m=lambda d: d.nrow, ok=coherent)
+                        self.mon.count("aggregate-on-kept-grouped-frame")
                     post = ("group-frames-coherent", None, None)
                     gc = tuple(getattr(df, "_group_colnames", ()) or ())
                     if gc and all(c in names for c in gc) and rng.random() < 0.4:
